@@ -204,9 +204,9 @@ fn run_one(id: &str, seed_r: u64, scale: u64) -> Result<(ChildResult, Option<c21
 
 fn rule_text(id: &str) -> &'static str {
     if id == "C20" {
-        "seeded sequences of metadata commands (1-40 before the snapshot, 0-20 after) applied as openraft entries through the real MemStateMachine adapter over the real Metadata state machine; build_snapshot on the sender, install_snapshot into a fresh adapter with a fresh Metadata; receiver state must equal sender state at the snapshot point and after the common suffix; Metadata::snapshot -> restore into a fresh instance must reproduce the state; non-trivial = the sender's state was non-empty"
+        "seeded sequences of 2-60 accepted metadata commands applied in batches of 1-8 as openraft entries through the real MemStateMachine adapter over the real Metadata state machine, the entry stream not ready at a seeded subset of its polls; 1-3 build_snapshot tasks started before seeded batches race with the applies on the simulator's executor; each snapshot is installed into a fresh adapter with a fresh Metadata, whose state (read through get_topic_state / all_node_addrs, not through snapshot()) must equal a replica that applied exactly the entries 1..=last_log_id of the snapshot, and the sender's after the remaining commands; applied log ids must agree; Metadata::snapshot -> restore into a fresh instance is repeated on the same instance with a rollover in between; non-trivial = the final state was non-empty"
     } else {
-        "seeded histories of append / truncate / purge / save_vote / save_committed on the real WalLogStore over the real WriteAheadLog and vendored engine copy, plus opaque records on a second WriteAheadLog (the mechanism of the peer address book), with 1-4 reopen events, each incarnation a fresh OS process ending either cleanly (drop) or killed (exit right after the last acknowledged operation); oracle: a BTreeMap model of the acknowledged operations compared with get_log_state, read_vote, read_committed, try_get_log_entries(..) and read_all after every reopen; non-trivial = at least one reopen was compared"
+        "seeded histories of append / truncate / purge / save_vote / save_committed on the real WalLogStore over the real WriteAheadLog and vendored engine copy, plus peer-address records written and loaded through the real functions of octopii/src/openraft/node.rs (cut out by build.rs; three peers whose addresses change) on a second WriteAheadLog; 8% of the appends run with the disk full (RLIMIT_FSIZE 0, SIGXFSZ ignored) and are retried once space is back; 1-4 reopen events, each incarnation a fresh OS process ending either cleanly (drop) or killed (exit right after the last acknowledged operation); oracle: a BTreeMap model of the acknowledged operations (an operation that returned success counts, also while the disk was full) compared with get_log_state, read_vote, read_committed, try_get_log_entries(..) and the loaded address book after every reopen; non-trivial = at least one reopen was compared"
     }
 }
 
